@@ -200,6 +200,23 @@ fn check_one<CS: BbsCiphersuite>(rep: &Report, ck: &str, c: &Case) -> CheckResul
             d2[k][p] ^= 1 << (splitmix(&mut st) % 8);
         }
         cx.expect_reject("disclosed-message-changed", ver(&d2, &idx, hdr, phd, pk), || format!("disclosed #{}", k))?;
+        // where inside the message the change sits (first and last disclosed message)
+        if dm[k].len() >= 2 && (k == 0 || k + 1 == dm.len()) {
+            let n = dm[k].len();
+            for (tag, f) in [
+                ("last-octet", Box::new(|m: &mut Vec<u8>| m[n - 1] ^= 0x01) as Box<dyn Fn(&mut Vec<u8>)>),
+                ("first-octet", Box::new(|m: &mut Vec<u8>| m[0] ^= 0x80)),
+                ("one-octet-shorter", Box::new(|m: &mut Vec<u8>| {
+                    m.pop();
+                })),
+                ("one-zero-octet-longer", Box::new(|m: &mut Vec<u8>| m.push(0))),
+                ("leading-zero-octet-added", Box::new(|m: &mut Vec<u8>| m.insert(0, 0))),
+            ] {
+                let mut d4 = dm.clone();
+                f(&mut d4[k]);
+                cx.expect_reject("disclosed-message-changed", ver(&d4, &idx, hdr, phd, pk), || format!("disclosed #{} ({} octets): {}", k, n, tag))?;
+            }
+        }
         // move index k to every other position
         for &p in &targets {
             if p == idx[k] {
@@ -285,6 +302,15 @@ fn check_one<CS: BbsCiphersuite>(rep: &Report, ck: &str, c: &Case) -> CheckResul
             d.pop();
             edits.push(Some(d));
             edits.push(None);
+            let mut b2 = hb.clone();
+            *b2.last_mut().unwrap() ^= 1;
+            edits.push(Some(b2));
+            let mut b3 = hb.clone();
+            b3[0] ^= 0x80;
+            edits.push(Some(b3));
+            let mut b4 = hb.clone();
+            b4.insert(0, 0);
+            edits.push(Some(b4));
         } else {
             edits.push(Some(vec![0x31]));
         }
@@ -587,6 +613,27 @@ pub fn run(ctx: &Ctx, rep: &Report) -> Meta {
         })
         .collect();
     par_items(ctx, rep, "size-sweep", &sweep, |c| check(rep, "size-sweep", c));
+    // long data: messages, header and presentation header of 300 octets up to 1 MiB
+    let long: Vec<Case> = [
+        (vec![70000usize, 5, 1 << 20], 0b101u32, 65537usize, 0usize),
+        (vec![300, 4097], 0b10, 0, 1 << 20),
+        (vec![65536, 65535, 3], 0b011, 1 << 20, 70000),
+        (vec![1000], 0b1, 300, 4096),
+    ]
+    .into_iter()
+    .enumerate()
+    .map(|(k, (mlens, mask, hlen, plen))| Case {
+        suite: if k % 2 == 0 { SuiteId::Sha256 } else { SuiteId::Shake256 },
+        key: KeySpec { fixture: false, ikm: BSpec { len: 32, class: 0, seed: (ctx.seed as u32).wrapping_add(900 + k as u32) }, key_info: OptBytes::None, key_dst: OptBytes::None },
+        header: if hlen == 0 { OptBytes::None } else { OptBytes::Bytes(BSpec { len: hlen, class: 0, seed: 5 }) },
+        ph: if plen == 0 { OptBytes::Empty } else { OptBytes::Bytes(BSpec { len: plen, class: (k % 3) as u8, seed: 6 }) },
+        msgs: MsgVec { items: mlens.into_iter().enumerate().map(|(j, len)| BSpec { len, class: 0, seed: (k * 10 + j) as u32 }).collect() },
+        mask,
+        seed: (ctx.seed as u32).wrapping_add(77 * k as u32),
+        all_bits: false,
+    })
+    .collect();
+    par_items(ctx, rep, "long-data", &long, |c| check(rep, "long-data", c));
     run_cases(ctx, rep, "edits-and-forgeries", ctx.tier.pick(64, 800), 100, strat, |c| check(rep, "edits-and-forgeries", c));
     Meta {
         rule: "honest (pk, sig, msgs L=1..8, D, header, ph, proof) then (a) statement edits: every disclosed message changed / dropped, every disclosed index moved to every other position (as given and re-sorted), \
@@ -594,7 +641,7 @@ pub fn run(ctx: &Ctx, rep: &Report) -> Meta {
                (b) single-bit flips of the proof octets (all bits for the all-bit-flips proofs with U in {0,1,3}; 96 sampled bits otherwise); \
                (c) attacker programs from public data only: Abar, Bbar in {O, Bv, P1, Q1, H1, rnd}^2 x D in {O, Bv, k*Bv, P1, rnd} with responses solving T1/T2 where possible, \
                the (P, t*P, k*Bv) family that only the pairing stops, points of cofactor order Q outside the subgroup (Abar = Q with Bbar in {-Q, Q, O, 2Q}, P+-Q, D = Bv + Q: pairs and triples that cancel in a sum), each as octets and as a serde-built object, plain and blind verifier; negative control t = sk must be accepted; \
-               size sweep over L in 9..=40 (quick) / 9..=100 (thorough) and 63..65 with sampled positions; concurrent-verifiers: 16 threads verifying their own honest proof and an edited statement in turn with transcripts above 1 KiB; half of the cases after a warm-up history; oracle: every edited / flipped / forged proof is rejected; non-trivial = honest case with all three groups executed; evaluations = rejected-verification checks"
+               size sweep over L in 9..=40 (quick) / 9..=100 (thorough) and 63..65 with sampled positions; long-data: messages, headers and presentation headers of 300 octets to 1 MiB, edits at the first / last octet, one octet shorter / longer, a leading zero octet; concurrent-verifiers: 16 threads verifying their own honest proof and an edited statement in turn with transcripts above 1 KiB; half of the cases after a warm-up history; oracle: every edited / flipped / forged proof is rejected; non-trivial = honest case with all three groups executed; evaluations = rejected-verification checks"
             .into(),
         assumptions: vec![
             "forgery families are the named ones (identity / Bv / P1 / generators / random, responses cancelling the recomputation); other adversaries are not covered".into(),
